@@ -68,6 +68,7 @@ class Profile:
     p_lit_left: float = 0.15
     redundant_parens: float = 0.2
     p_const_pred: float = 0.04
+    p_repeat_return: float = 0.0
 
 
 SALTS = [None, None, "", "s1", "exp_v1", "é", "a'b", 'x"y', "\\", "salt with spaces", "日本", "csdvs887", "%s{0}", "\\n"]
@@ -86,6 +87,7 @@ class ProgGen:
         self.nret = 0
         self.features = set()
         self.by_kind = {"num": [], "str": [], "tnum": [], "tstr": []}
+        self.prev_returns = []
 
     def ident(self, kind):
         rnd = self.rnd
@@ -231,6 +233,10 @@ class ProgGen:
         rnd = self.rnd
         o = self.nret
         self.nret += 1
+        if self.prev_returns and rnd.random() < self.pf.p_repeat_return:
+            # the very same group list again in another branch (possibly at another nesting depth)
+            self.features.add("repeated-return-list")
+            return Ret(rnd.choice(self.prev_returns).groups, o)
         n = rnd.choice([1, 1, 2, 2, 3, self.pf.max_groups])
         kind = rnd.choice(self.pf.label_kinds)
         groups = []
@@ -245,7 +251,9 @@ class ProgGen:
         for g in groups:
             assert g.label.value not in seen
             seen.add(g.label.value)
-        return Ret(tuple(groups), o)
+        r = Ret(tuple(groups), o)
+        self.prev_returns.append(r)
+        return r
 
     def cond(self, d=0):
         rnd = self.rnd
